@@ -3,6 +3,7 @@
   `_id: w` (and nothing else in the update addresses `_id`) leaves `_id = w` on the document.
 -/
 import Proofs.C02Frame
+import Proofs.C02PosFrame
 import Spec.UpsertExt
 
 set_option linter.unusedVariables false
@@ -133,6 +134,156 @@ theorem setFold_present (now : Val) (w : Val) : ∀ (body : Fields) (fs : Fields
       obtain ⟨fs1, rfl, _⟩ := fieldStep_touch .set now (k, v) fs d1 h1
       exact setFold_present now w body fs1 d' h2 hw hf
 
+/-! ### the same through the positional branch (`applyOpsPos`) -/
+
+/-- the operators in front that do not address `key` can be skipped as far as `key` goes -/
+theorem applyOpsPos_skip (spec now : Val) (wi : Bool) (whole : Fields)
+    (hw : whole.any (fun kv => kv.1.startsWith "$") = true) (key : String) (tail : Fields) :
+    ∀ (pre : Fields) (first : Bool) (sub : SubRef) (fs : Fields) (d' : Val),
+      applyOpsPos spec now wi whole (pre ++ tail) first sub (.doc fs) = .ok d' →
+      key ∉ addressed pre →
+      ∃ fs1 first' sub', dget key fs1 = dget key fs ∧
+        applyOpsPos spec now wi whole tail first' sub' (.doc fs1) = .ok d'
+  | [], first, sub, fs, d', h, _ => ⟨fs, first, sub, rfl, h⟩
+  | (k, v) :: rest, first, sub, fs, d', h, hk => by
+    rw [addressed_cons] at hk
+    simp only [List.mem_append, not_or] at hk
+    have key' : ∀ (X : R (Val × SubRef)),
+        (∀ r, X = .ok r → ∃ fs1, r.1 = .doc fs1 ∧ Frame (opAddr k v) fs fs1) →
+        (do let r ← X; applyOpsPos spec now wi whole (rest ++ tail) false r.2 r.1) = Except.ok d' →
+        ∃ fs1 first' sub', dget key fs1 = dget key fs ∧
+          applyOpsPos spec now wi whole tail first' sub' (.doc fs1) = .ok d' := by
+      intro X hX hb
+      obtain ⟨r, h1, h2⟩ := bind_ok' hb
+      obtain ⟨fs1, hr, hf1⟩ := hX r h1
+      rw [hr] at h2
+      obtain ⟨fs2, f2, s2, hg, h3⟩ :=
+        applyOpsPos_skip spec now wi whole hw key tail rest false r.2 fs1 d' h2 hk.2
+      exact ⟨fs2, f2, s2, by rw [hg, hf1 key hk.1], h3⟩
+    have pf : ∀ (u : Updater) (r : Val × SubRef), posFields u now spec v (.doc fs) sub = .ok r →
+        ∃ fs1, r.1 = .doc fs1 ∧ Frame (opAddr k v) fs fs1 := by
+      intro u r hr
+      obtain ⟨d1, s1⟩ := r
+      exact posFields_frame u now spec v fs sub s1 d1 k hr
+    simp only [List.cons_append, applyOpsPos] at h
+    split at h
+    · rename_i u hu
+      exact key' _ (pf u) h
+    · split at h
+      · rename_i hk'; subst hk'
+        obtain ⟨d1, h1, h2⟩ := bind_ok' h
+        obtain ⟨fs1, rfl, hf1⟩ := renameFields_frame v fs d1 h1
+        obtain ⟨fs2, f2, s2, hg, h3⟩ :=
+          applyOpsPos_skip spec now wi whole hw key tail rest false _ fs1 d' h2 hk.2
+        exact ⟨fs2, f2, s2, by rw [hg, hf1 key hk.1], h3⟩
+      split at h
+      · split at h
+        · exact applyOpsPos_skip spec now wi whole hw key tail rest first sub fs d' h hk.2
+        · exact key' _ (pf .set) h
+      split at h
+      · exact key' _ (pf .currentDate) h
+      split at h
+      · refine key' _ (fun r hr => eachFieldS_frame _ ?_ v fs sub r k hr) h
+        intro fs0 s0 f0 v0 r0 h0
+        obtain ⟨d1, h1, h2⟩ := bind_ok' h0
+        cases h2
+        exact addToSetFieldPos_touch spec fs0 f0 v0 d1 h1
+      split at h
+      · refine key' _ (fun r hr => eachFieldS_frame _ ?_ v fs sub r k hr) h
+        intro fs0 s0 f0 v0 r0 h0
+        exact pullFieldPos_touch spec s0 fs0 f0 v0 r0 h0
+      split at h
+      · refine key' _ (fun r hr => eachFieldS_frame _ ?_ v fs sub r k hr) h
+        intro fs0 s0 f0 v0 r0 h0
+        obtain ⟨d1, h1, h2⟩ := bind_ok' h0
+        cases h2
+        exact pullAllFieldPos_touch spec fs0 f0 v0 d1 h1
+      split at h
+      · refine key' _ (fun r hr => eachFieldS_frame _ ?_ v fs sub r k hr) h
+        intro fs0 s0 f0 v0 r0 h0
+        obtain ⟨d1, h1, h2⟩ := bind_ok' h0
+        cases h2
+        exact pushFieldPos_touch spec fs0 f0 v0 d1 h1
+      split at h
+      · rw [replaceWhole_dollar whole _ hw] at h; cases h
+      · cases h
+
+/-- `$set` (and `$setOnInsert` on an insert) runs `posFields .set` and goes on -/
+theorem applyOpsPos_set_step (spec now : Val) (wi : Bool) (whole : Fields) (op : String) (v : Val)
+    (post : Fields) (first : Bool) (sub : SubRef) (d d' : Val)
+    (hop : op = "$set" ∨ (op = "$setOnInsert" ∧ wi = true))
+    (h : applyOpsPos spec now wi whole ((op, v) :: post) first sub d = .ok d') :
+    ∃ r, posFields .set now spec v d sub = .ok r ∧
+      applyOpsPos spec now wi whole post false r.2 r.1 = .ok d' := by
+  rcases hop with rfl | ⟨rfl, rfl⟩
+  · have hu : updaterOf "$set" = some .set := by decide +kernel
+    simp only [applyOpsPos, hu] at h
+    exact bind_ok' h
+  · have hu : updaterOf "$setOnInsert" = none := by decide +kernel
+    simp only [applyOpsPos, hu] at h
+    simp only [show ("$setOnInsert" = "$rename") = False by decide, if_false, if_true, Bool.not_true,
+      Bool.false_eq_true] at h
+    exact bind_ok' h
+
+theorem hasDollarPart_id : hasDollarPart "_id" = false := by decide +kernel
+
+theorem posFold_absent (now spec : Val) : ∀ (body : Fields) (st st' : PosState) (fs : Fields),
+    st.d = .doc fs →
+    body.foldlM (fun st kv => posUpdaterKey .set now spec st kv.1 kv.2) st = .ok st' →
+    (∀ k ∈ dkeys body, headOf k ≠ "_id") →
+    ∃ fs', st'.d = .doc fs' ∧ dget "_id" fs' = dget "_id" fs
+  | [], st, st', fs, hd, h, _ => by
+    simp only [List.foldlM_nil, pure, Except.pure] at h
+    cases h; exact ⟨fs, hd, rfl⟩
+  | kv :: body, st, st', fs, hd, h, hk => by
+    simp only [List.foldlM_cons] at h
+    obtain ⟨s1, h1, h2⟩ := bind_ok' h
+    obtain ⟨fs1, hd1, ht⟩ := posUpdaterKey_touch .set now spec st s1 kv.1 kv.2 fs hd h1
+    obtain ⟨fs2, hd2, hg⟩ := posFold_absent now spec body s1 st' fs1 hd1 h2
+      (fun k hm => hk k (by simp only [dkeys, List.map_cons, List.mem_cons]; exact Or.inr hm))
+    refine ⟨fs2, hd2, ?_⟩
+    rw [hg]
+    exact ht.dget (Ne.symm (hk kv.1 (by simp [dkeys])))
+
+theorem posFold_present (now spec : Val) (w : Val) : ∀ (body : Fields) (st st' : PosState)
+    (fs : Fields), st.d = .doc fs →
+    body.foldlM (fun st kv => posUpdaterKey .set now spec st kv.1 kv.2) st = .ok st' →
+    dget "_id" body = some w →
+    (dkeys body).filter (fun k => headOf k = "_id") = ["_id"] →
+    ∃ fs', st'.d = .doc fs' ∧ dget "_id" fs' = some w
+  | [], st, st', fs, hd, h, hw, _ => by simp [dget] at hw
+  | (k, v) :: body, st, st', fs, hd, h, hw, hf => by
+    simp only [List.foldlM_cons] at h
+    obtain ⟨s1, h1, h2⟩ := bind_ok' h
+    by_cases e : k = "_id"
+    · subst e
+      simp only [dget, if_true, Option.some.injEq] at hw
+      subst hw
+      obtain ⟨d0, sub0, lost0⟩ := st
+      simp only at hd
+      subst hd
+      simp only [posUpdaterKey] at h1
+      split at h1
+      · cases h1
+      simp only [keyOk_id, Bool.not_true, Bool.false_eq_true, if_false, hasDollarPart_id,
+        Bool.not_false, if_true, splitDots_id, updateSingleField, runUpdater, bind, Except.bind,
+        pure, Except.pure] at h1
+      cases h1
+      simp only [dkeys, List.map_cons, List.filter_cons, headOf_id, decide_true, if_true,
+        List.cons.injEq, true_and, List.filter_eq_nil_iff, decide_eq_true_eq] at hf
+      obtain ⟨fs2, hd2, hg⟩ := posFold_absent now spec body _ st' _ rfl h2 (fun k hm => hf k hm)
+      exact ⟨fs2, hd2, by rw [hg, C02Lemmas.dget_dset_same]⟩
+    · simp only [dget, e, if_false] at hw
+      have hh : headOf k ≠ "_id" := by
+        intro hh
+        simp only [dkeys, List.map_cons, List.filter_cons, hh, decide_true, if_true,
+          List.cons.injEq] at hf
+        exact e hf.1
+      simp only [dkeys, List.map_cons, List.filter_cons, hh, decide_false, Bool.false_eq_true,
+        if_false] at hf
+      obtain ⟨fs1, hd1, _⟩ := posUpdaterKey_touch .set now spec st s1 k v fs hd h1
+      exact posFold_present now spec w body s1 st' fs1 hd1 h2 hw hf
+
 /-- **`$set` / `$setOnInsert` of `_id`** inside an operator update, on an insert -/
 theorem set_id_effect (spec now : Val) (wi : Bool) (pre post body : Fields) (op : String) (w : Val)
     (fs : Fields) (d' : Val)
@@ -147,18 +298,49 @@ theorem set_id_effect (spec now : Val) (wi : Bool) (pre post body : Fields) (op 
     simp only [List.all_eq_true] at hall
     simp only [List.any_eq_true]
     exact ⟨(op, .doc body), by simp, hall _ (by simp)⟩
-  have h' : applyOps spec now wi (pre ++ (op, .doc body) :: post) (pre ++ (op, .doc body) :: post)
-      true (.doc fs) = .ok d' := by
-    cases hp : pre ++ (op, Val.doc body) :: post with
-    | nil => simp at hp
-    | cons a l => rw [hp] at h; simpa only [applyUpdate] using h
-  obtain ⟨fs1, f1, hg1, h1⟩ := applyOps_skip spec now wi _ hany "_id" _ pre true fs d' h' hpre
-  obtain ⟨d2, h2, h3⟩ := applyOps_set_step spec now wi _ op _ post f1 _ d' hop h1
-  simp only [updateFields] at h2
-  split at h2
-  · cases h2
-  · obtain ⟨fs2, rfl, hg2⟩ := setFold_present now w body fs1 d2 h2 hw hf
-    obtain ⟨fs3, rfl, hfr⟩ := applyOps_frame spec now wi _ hany post false fs2 d' h3
-    exact ⟨fs3, rfl, by rw [hfr "_id" hpost, hg2]⟩
+  by_cases hpos : positionalUpdate (pre ++ (op, .doc body) :: post) = true
+  · -- the positional branch
+    have h' : applyOpsPos spec now wi (pre ++ (op, .doc body) :: post)
+        (pre ++ (op, .doc body) :: post) true .nil (.doc fs) = .ok d' := by
+      cases hp : pre ++ (op, Val.doc body) :: post with
+      | nil => simp at hp
+      | cons a l =>
+        rw [hp] at h hpos
+        simpa only [applyUpdate, hpos, if_true] using h
+    obtain ⟨fs1, f1, s1, hg1, h1⟩ :=
+      applyOpsPos_skip spec now wi _ hany "_id" _ pre true _ fs d' h' hpre
+    obtain ⟨r, h2, h3⟩ := applyOpsPos_set_step spec now wi _ op _ post f1 s1 _ d' hop h1
+    simp only [posFields] at h2
+    split at h2
+    · obtain ⟨st, hst, h4⟩ := bind_ok' h2
+      cases h4
+      obtain ⟨fs2, hd2, hg2⟩ := posFold_present now spec w body _ st fs1 rfl hst hw hf
+      simp only [hd2] at h3
+      obtain ⟨fs3, rfl, hfr⟩ := applyOpsPos_frame spec now wi _ hany post false _ fs2 d' h3
+      exact ⟨fs3, rfl, by rw [hfr "_id" hpost, hg2]⟩
+    · obtain ⟨d2, h4, h5⟩ := bind_ok' h2
+      cases h5
+      simp only [updateFields] at h4
+      split at h4
+      · cases h4
+      · obtain ⟨fs2, rfl, hg2⟩ := setFold_present now w body fs1 d2 h4 hw hf
+        obtain ⟨fs3, rfl, hfr⟩ := applyOpsPos_frame spec now wi _ hany post false _ fs2 d' h3
+        exact ⟨fs3, rfl, by rw [hfr "_id" hpost, hg2]⟩
+  · simp only [Bool.not_eq_true] at hpos
+    have h' : applyOps spec now wi (pre ++ (op, .doc body) :: post) (pre ++ (op, .doc body) :: post)
+        true (.doc fs) = .ok d' := by
+      cases hp : pre ++ (op, Val.doc body) :: post with
+      | nil => simp at hp
+      | cons a l =>
+        rw [hp] at h hpos
+        simpa only [applyUpdate, hpos, Bool.false_eq_true, if_false] using h
+    obtain ⟨fs1, f1, hg1, h1⟩ := applyOps_skip spec now wi _ hany "_id" _ pre true fs d' h' hpre
+    obtain ⟨d2, h2, h3⟩ := applyOps_set_step spec now wi _ op _ post f1 _ d' hop h1
+    simp only [updateFields] at h2
+    split at h2
+    · cases h2
+    · obtain ⟨fs2, rfl, hg2⟩ := setFold_present now w body fs1 d2 h2 hw hf
+      obtain ⟨fs3, rfl, hfr⟩ := applyOps_frame spec now wi _ hany post false fs2 d' h3
+      exact ⟨fs3, rfl, by rw [hfr "_id" hpost, hg2]⟩
 
 end MongoModel.Proofs.C13Ext
